@@ -8,7 +8,6 @@ __all__ = [
     'clip',
     'flatten',
     'isclose',
-    'linspace',
     'mesh', 'md_map', 'refine_mesh',
     'vector3',
     'Mean', 'Sum', 'DSum', 'VarianceMeanCount',
